@@ -340,6 +340,26 @@ def applicable(ref, op):
     return True
 
 
+def ambiguous(ref, op):
+    """unique over key values that are equal across types (True == 1 == 1.0): plain Python hashing makes them one
+    key, a type-aware reading makes them several; the statement does not choose, so such steps are not judged."""
+    if op["op"] != "unique" or not ref:
+        return False
+    keys = op["keys"]
+    if not keys:
+        keys = set(ref[0])
+        for x in ref:
+            keys &= set(x)
+        keys = sorted(keys)
+    plain = {}
+    for x in ref:
+        try:
+            plain.setdefault(tuple(x[k] for k in keys), set()).add(tuple(type(x[k]).__name__ for k in keys))
+        except TypeError:
+            return False
+    return any(len(v) > 1 for v in plain.values())
+
+
 def _typed(d):
     return {k: (type(v).__name__, v) for k, v in d.items()}
 
@@ -378,6 +398,9 @@ def check(plan, ctx):
             continue
         if not applicable(ref, op):
             ctx.excl("step outside the documented domain (absent key / incomparable sort values)")
+            continue
+        if ambiguous(ref, op):
+            ctx.excl("unique over key values equal across types (True == 1): not fixed by the statement")
             continue
         if _boundary(op, len(ref)):
             ctx.cls("boundary_" + op["op"])
